@@ -1493,9 +1493,13 @@ class Norm:
             t = self._project(base, path)
             effs = sel
             if effs and (lid in self.mut or any(k in ("assign", "assignop") for _, k, _g in effs)):
-                et, inlined_any = self._effect_tuples(lid, effs)
-                et = self._join_effects(lid, et)
-                t = ("mut", pat.get("name", "?"), t, et) if inlined_any else self._canon_mut(lid, ("mut", pat.get("name", "?"), t, et), effs, origin)
+                per_field = self._struct_by_fields(lid, pat, t, effs, origin)
+                if per_field is not None:
+                    t = per_field
+                else:
+                    et, inlined_any = self._effect_tuples(lid, effs)
+                    et = self._join_effects(lid, et)
+                    t = ("mut", pat.get("name", "?"), t, et) if inlined_any else self._canon_mut(lid, ("mut", pat.get("name", "?"), t, et), effs, origin)
                 if t[0] == "mut":
                     t = _string_builder(t)
                 if t[0] == "mut" and t[3]:
@@ -1532,6 +1536,53 @@ class Norm:
         if name == "Iterator::filter_map" and clo[3][0] == "call" and clo[3][1] == "then" and len(clo[3][2]) == 2:
             return ("call", "Iterator::map", [("call", "Iterator::filter", [recv, ("closure", d, 1, clo[3][2][0])]), ("closure", d, 1, clo[3][2][1])])
         return ("call", name, [recv, clo])
+
+    def _struct_by_fields(self, lid, pat, init, effs, origin):
+        """a struct local that is only ever changed field by field (`let mut r = S::default(); r.a.push(x); r.b.insert(y); r`) is the struct
+        literal of its fields' values, each field with its own effects: `S { a: <a's value>, b: <b's value> }`"""
+        if self.program is None or getattr(self, "_field_view", None) is not None:
+            return None
+        ty = peel_ty(pat.get("ty", "")).split("<")[0]
+        adt = None
+        for c in self.program.crates.values():
+            for pth, a in getattr(c, "adts", {}).items():
+                if a.get("kind") == "struct" and (pth == ty or pth.endswith("::" + ty) or (pth.split("::", 1)[-1] == ty)):
+                    adt = a
+        if adt is None or not adt.get("variants") or not effs:
+            return None
+        names = [f["name"] for f in adt["variants"][0]["fields"]]
+        if init[0] == "struct" and init[3] is not None and ".." not in init[3]:
+            inits = dict(init[3])
+        elif init[0] == "call" and init[1] == "Default::default" and not init[2]:
+            inits = {f: ("call", "Default::default", []) for f in names}
+        else:
+            return None
+        if set(inits) != set(names):
+            return None
+        groups = {}
+        for n, k, g in effs:
+            tgt = n.get("recv") if k == "mutcall" else n.get("l") if k in ("assign", "assignop") else None
+            if tgt is None:
+                return None
+            pth = self._lhs_path(tgt)
+            head = pth.split(".")[0] if pth else ""
+            if head not in names:
+                return None
+            groups.setdefault(head, []).append((n, k, g))
+        out = {}
+        for f in names:
+            if f not in groups:
+                out[f] = inits[f]
+                continue
+            self._field_view = f
+            try:
+                et, inl = self._effect_tuples(lid, groups[f])
+                et = self._join_effects(lid, et)
+                ft = ("mut", f, inits[f], et) if inl else self._canon_mut(lid, ("mut", f, inits[f], et), groups[f], origin)
+            finally:
+                self._field_view = None
+            out[f] = ft
+        return ("struct", adt["path"].split("::", 1)[-1] if adt["path"].count("::") else adt["path"], "", out)
 
     def _collected(self, it, x, d):
         """`for e in it { v.push(x) }` as a value: it.map(|e| x).collect()  (with `?` hoisted out of the closure)"""
@@ -1766,7 +1817,8 @@ class Norm:
 
     def _vec_parts(self, init, effs, rel):
         """let mut v = INIT; (v.push(x) under for / if / match-arm guards)*   ==   vec+(parts of INIT.., guarded x..)"""
-        PUSH, INS = ("Vec::push", "Punctuated::push"), ("Vec::insert", "Punctuated::insert")
+        PUSH, INS = ("Vec::push", "Punctuated::push", "BTreeSet::insert", "HashSet::insert"), ("Vec::insert", "Punctuated::insert")
+        is_set = any(cshort(n.get("callee", "")) in ("BTreeSet::insert", "HashSet::insert") for n, _k, _g in effs)
 
         def front(n, r):
             # insert(0, x), unconditionally: x becomes the first part
@@ -1775,7 +1827,7 @@ class Norm:
                                for (n, k, _g), r in zip(effs, rel)):
             return None
         parts = []
-        if init[0] == "call" and init[1] in ("Vec::new", "Vec::with_capacity", "Default::default", "Punctuated::new"):
+        if init[0] == "call" and init[1] in ("Vec::new", "Vec::with_capacity", "Default::default", "Punctuated::new", "BTreeSet::new", "HashSet::new"):
             pass
         elif init[0] == "call" and init[1] == "vec!":
             parts += list(init[2])
@@ -1809,6 +1861,10 @@ class Norm:
                 else:
                     return None
             parts.append(inner)
+        if is_set:
+            if any(cshort(n.get("callee", "")) not in ("BTreeSet::insert", "HashSet::insert") for n, _k, _g in effs):
+                return None
+            return ("call", "Iterator::collect", [("call", "vec+", parts)])       # a set filled by inserts is the collected sequence of what was inserted
         return ("call", "vec+", parts)
 
     def _group_same_head(self, scr, arms):
@@ -2246,7 +2302,11 @@ class Norm:
                 e = e["recv"]
             else:
                 break
-        return ".".join(reversed(acc))
+        acc.reverse()
+        pre = getattr(self, "_field_view", None)
+        if pre is not None and acc and acc[0] == pre:
+            acc = acc[1:]           # looking at one field of a struct local as if it were the local (local_term, per-field terms)
+        return ".".join(acc)
 
     def _project(self, base, path):
         t = base
